@@ -285,7 +285,7 @@ int lp_upolynomial_cmp(const lp_upolynomial_t* p, const lp_upolynomial_t* q) {
     }
 
     // Both equal, go to the next one if there is one
-  } while (p_i > 0 || q_i > 0);
+  } while (p_i > 0 && q_i > 0);
 
   // One of the polynomials ran out of coefficients
   if (p_i == q_i) return 0;
